@@ -355,7 +355,26 @@ def check_split(run, pkg):
         # not the row-by-row (one wave vector per iteration) form the rules below are written for
         run.ob("R-ALG", fq, "longitudinal", None, "longitudinal part is filled row by row, one wave vector per iteration", f"store target index {show(ev.data['target'][2])[:40]}", loc=loc)
         return
-    okd = eqv(L.iter, ("call", "builtins.range", (("sub", ("attr", ("sym", "qvector"), "shape"), C(0)),), ()))
+    # the loop covers every row: range(A.shape[0]) / range(len(A)) for any array with one row per wave vector (the wave-vector
+    # list itself, the unit vectors, the transformed field, the array being filled).  Definitely wrong only when the bound is
+    # such a row count minus a positive constant or the start is a positive constant; anything else is undecided.
+    def _rows_of(t):
+        if t[0] == "sub" and t[1][0] == "attr" and t[1][2] == "shape" and t[2] == C(0):
+            return t[1][1]
+        if t[0] == "call" and t[1] == "builtins.len" and len(t[2]) == 1:
+            return t[2][0]
+        return None
+    okd = None
+    if L.iter is not None and L.iter[0] == "call" and L.iter[1] == "builtins.range" and not L.iter[3]:
+        ra = L.iter[2]
+        lo, hi = (C(0), ra[0]) if len(ra) == 1 else ((ra[0], ra[1]) if len(ra) == 2 else (None, None))
+        if hi is not None:
+            if _rows_of(hi) is not None and lo == C(0):
+                okd = True          # one iteration per row of an array of the table (all share the row count of the wave-vector list)
+            elif is_const(lo) and isinstance(lo[1], int) and lo[1] > 0 and _rows_of(hi) is not None:
+                okd = False
+            elif hi[0] == "bin" and hi[1] == "-" and _rows_of(hi[2]) is not None and is_const(hi[3]) and isinstance(hi[3][1], int) and hi[3][1] > 0:
+                okd = False
     run.ob("R-LOOPDOM", fq, "wavevectors", okd, "every wave vector is decomposed", show(L.iter)[:60], witness=None if okd else "wave vectors skipped", loc=fi.loc(L.node), sound=True)
     Lz = ev.data["target"][1]
     Fc = Lz[2][0]
